@@ -19,7 +19,9 @@ ASSUMPTIONS = [
     "where the statement defines nothing the outcome is only required to be a value or a SigmaError",
 ]
 ALPHA = ["a", "-", "/", " ", "*", "?", "\\", "%", "é"]
-WITNESS = ["-a -b", "a-b", "/x", "%u%", "\\%u\\%", "a%u%b%v%", "*a*", "\\*a", "a\\", "-a/b", " -x", "a -b /c", "a*-b", "10.0.0.0/8", "10.0.0.1/8", "^a.*$", "a(", ".*a", "a$", "f2", "%a%%b%"]
+WITNESS = ["-a -b", "a-b", "/x", "%u%", "\\%u\\%", "a%u%b%v%", "*a*", "\\*a", "a\\", "-a/b", " -x", "a -b /c", "a*-b", "10.0.0.0/8", "10.0.0.1/8", "^a.*$", "a(", ".*a", "a$", "f2", "%a%%b%",
+           # several parts (wildcards between) with text before a later dash
+           "cmd -a*run -b", "-a?x -b*y /c", "a*b -c", "x -a*-b", "p -a\\*q -b"]
 SCALARS = [0, 7, -1, 1.5, True, False, None]
 LISTS = [["a", "b"], ["-a", "*b"], ["a", 7], [1, 2], ["a*", None], [True, False], ["a%u%", "\\*"], []]
 BOUNDS = {
